@@ -578,7 +578,54 @@ fn final_key_on_the_number_pad(run: &Run) {
     );
 }
 
+/// The suggestion RETURNED BY A BACKSPACE is a suggestion for the surviving text too: text + one more character, one plain
+/// backspace - what the backspace returns must be what a brand-new context returns for typing the text.  (The preselected
+/// index is left out of the comparison when the text ends in a selection-preserving mark: there the typed key carries the
+/// caller's byte, a backspace has none.)
+fn text_reached_by_backspace(run: &Run) {
+    let texts = ["(", "(a", "a", "ami", "\"k", ":)", "x`", "[", "\"", "a.", "sesh", "(ami)", ":", "..", "'", "k:", "{a", "-", "1", "+1", "smile", "onno", "a(", "`", "o`"];
+    let items: Vec<(usize, usize)> = (0..texts.len()).flat_map(|t| (0..3usize).map(move |o| (t, o))).collect();
+    run.exhaustive(
+        "text-reached-by-one-backspace",
+        &items,
+        |_| Sandbox::new(),
+        |&(ti, oi), st, sb| {
+            let opts = Opts::parse(["s", "sqe", "q"][oi]);
+            let text = texts[ti];
+            let case = || json!({"reached_by_backspace": {"text": text, "opts": opts.letters()}});
+            let pf = |p: crate::driver::PanicInfo| Failure::new(panic_kind(&p), p.to_string(), case());
+            let (warm, fresh) = (Ctx::new(opts, sb).map_err(pf)?, Ctx::new(opts, sb).map_err(pf)?);
+            let want = fresh.type_text(text).map_err(pf)?.unwrap();
+            fresh.finish().map_err(pf)?;
+            for extra in ['a', 'k', '.', ')', '1', '`'] {
+                warm.type_text(text).map_err(pf)?;
+                warm.ch(extra, 0).map_err(pf)?;
+                let mut got = warm.backspace(false).map_err(pf)?;
+                let ongoing = warm.ongoing();
+                warm.finish().map_err(pf)?;
+                st.evals(1);
+                let mut w = want.clone();
+                if text.chars().last().map(|c| crate::gen::SEL_PRESERVING.contains(c)).unwrap_or(false) {
+                    got.sel = 0;
+                    w.sel = 0;
+                }
+                if got != w || !ongoing {
+                    return Err(Failure::new(
+                        "history-dependent-suggestion",
+                        format!("text {text:?} ({}) reached by typing {text:?} + {extra:?} and one backspace: the backspace returns {} (session open: {ongoing}) but a brand-new context typing the text shows {}", opts.letters(), got.short(), w.short()),
+                        case(),
+                    ));
+                }
+            }
+            st.label("text-reached-by-backspace");
+            st.nontrivial(hash_of(&("bs", ti, oi)), || json!({"text": text, "opts": opts.letters()}));
+            Ok(())
+        },
+    );
+}
+
 pub fn run(run: &Run) {
+    text_reached_by_backspace(run);
     final_key_on_the_number_pad(run);
     run.sharded("warm-vs-fresh", 16, run.tier.pick(350, 9000), 400, strategy, |_| (), |c: &Case, st, _| run_case(c, st));
     run.sharded("long-lived-context-vs-fresh", 16, run.tier.pick(450, 6000), 0, strategy, mk_long_lived, |c: &Case, st, lo| long_lived_case(c, lo, st));
